@@ -407,10 +407,17 @@ func (l *Layout) Render(toks []Tk, forceSpace bool) string {
 	for i, t := range toks {
 		if t.NL {
 			if l.R != nil && l.Comments && l.R.Chance(1, 6) {
-				if l.R.Chance(1, 2) {
+				switch l.R.Intn(3) {
+				case 0:
 					sb.WriteString(" # c")
-				} else {
+				case 1:
 					sb.WriteString(" // c")
+				default:
+					// an inline comment: unlike the other two its token does not contain the line ending
+					sb.WriteString(" /* c */")
+					if l.R.Chance(1, 4) {
+						sb.WriteString(" /* d */")
+					}
 				}
 			}
 			sb.WriteString(l.nl())
